@@ -93,22 +93,33 @@ func runC09(w *World, r *Report) {
 		if f == nil {
 			continue
 		}
-		adds := f.calls(nAddVertexByID)
+		adds := deepCalls(f.fn, func(c ssa.CallInstruction) bool { return calleeName(c) == nAddVertexByID }, deepDepth)
 		if len(adds) != 1 {
 			r.bad("edge-binding", fnName+"/AddVertexByID", w.Pos(f.fn.Pos()), "one insertion per admission function", fmt.Sprintf("%d", len(adds)))
 			continue
 		}
-		_, aa := callArgs(adds[0])
-		v := pathOf(aa[1])
-		for _, e := range f.calls(nAddEdge) {
+		_, aa := callArgs(adds[0].c)
+		v := adds[0].path(aa[1])
+		inserted := func(fn2 *ssa.Function, res resolver) []Edge {
+			var es []Edge
+			for _, s := range callsTo(fn2, nAddVertexByID) {
+				_, sa := callArgs(s)
+				if res(sa[1]) == v {
+					es = append(es, passErrNil(s)...)
+				}
+			}
+			return es
+		}
+		for _, ed := range deepCalls(f.fn, func(c ssa.CallInstruction) bool { return calleeName(c) == nAddEdge }, deepDepth) {
+			e := ed.c
 			_, a := callArgs(e)
 			// dst
 			dx, ok := vertexOfHashArg(a[1])
-			dstOK := ok && (pathOf(dx) == v || fnName == "LoadDag")
+			dstOK := ok && (ed.path(dx) == v || fnName == "LoadDag")
 			if fnName != "LoadDag" {
-				dstOK = dstOK && behind(e, passErrNil(adds[0]))
+				dstOK = dstOK && behindDeepSite(ed, inserted)
 			}
-			r.check(dstOK, "edge-binding", fnName+"/AddEdge-dst", lineOf(w, e), "edge ends at the vertex that was just inserted, after its insertion succeeded", "dst is "+pathOf(a[1]))
+			r.check(dstOK, "edge-binding", fnName+"/AddEdge-dst", lineOf(w, e), "edge ends at the vertex that was just inserted, after its insertion succeeded", "dst is "+ed.path(a[1]))
 			// src
 			switch fnName {
 			case "addLeafMemorized":
@@ -118,7 +129,7 @@ func runC09(w *World, r *Report) {
 				if ok {
 					if ld, ok := sx.(*ssa.UnOp); ok {
 						if ia, ok := ld.X.(*ssa.IndexAddr); ok {
-							for _, ap := range appendsFeeding(ia.X) {
+							for _, ap := range appendsFeeding(ed.argValue(ia.X)) {
 								for _, y := range sliceLitElems(ap.Call.Args[1]) {
 									for _, o := range origins(y) {
 										ex, ok := o.(*ssa.Extract)
@@ -176,7 +187,7 @@ func runC09(w *World, r *Report) {
 						if ld, ok := sx.(*ssa.UnOp); ok {
 							if ia, ok := ld.X.(*ssa.IndexAddr); ok {
 								for _, el := range sliceLitOrArrayElems(ia.X) {
-									srcs = append(srcs, pathOf(el))
+									srcs = append(srcs, ed.path(el))
 								}
 							}
 						}
@@ -198,19 +209,20 @@ func runC09(w *World, r *Report) {
 		if f == nil {
 			continue
 		}
-		for _, s := range f.calls(nAddVertexByID) {
+		for _, d := range deepCalls(f.fn, func(c ssa.CallInstruction) bool { return calleeName(c) == nAddVertexByID }, deepDepth) {
+			s := d.c
 			_, aa := callArgs(s)
-			v := pathOf(aa[1])
+			v := d.path(aa[1])
 			bad := 0
 			for _, e := range passErrNil(s) {
-				walkFrom(nil, e.To(), nil, func(in ssa.Instruction) bool {
+				dw := newDeepWalk(func(in ssa.Instruction, fr *frame) bool {
 					if c, ok := in.(ssa.CallInstruction); ok && calleeName(c) == nDeleteVertex {
 						_, da := callArgs(c)
-						if x, ok := vertexOfHashArg(da[0]); ok && pathOf(x) == v {
+						if x, ok := vertexOfHashArg(da[0]); ok && fr.cx.res(x) == v {
 							return true
 						}
 					}
-					if ret, ok := in.(*ssa.Return); ok {
+					if ret, ok := in.(*ssa.Return); ok && fr.top() {
 						if !successReturn(ret) {
 							bad++
 						}
@@ -218,6 +230,7 @@ func runC09(w *World, r *Report) {
 					}
 					return false
 				})
+				dw.run(frameFor(f.fn, d.chain), e.To(), 0)
 			}
 			r.check(bad == 0 && len(passErrNil(s)) > 0, "rollback-vertex", fnName+"/DeleteVertex("+v+")", lineOf(w, s), "a vertex whose linking failed is removed again", fmt.Sprintf("%d error returns reachable with the vertex left in the DAG", bad))
 		}
@@ -241,11 +254,18 @@ func runC09(w *World, r *Report) {
 			why := ""
 			good := false
 			// (a) just inserted in this function
-			for _, s := range callsTo(fn, nAddVertexByID) {
-				_, sa := callArgs(s)
-				if pathOf(sa[1]) == v && behind(d, passErrNil(s)) {
-					good = true
+			justInserted := func(fn2 *ssa.Function, res resolver) []Edge {
+				var es []Edge
+				for _, s := range callsTo(fn2, nAddVertexByID) {
+					_, sa := callArgs(s)
+					if res(sa[1]) == v {
+						es = append(es, passErrNil(s)...)
+					}
 				}
+				return es
+			}
+			if behindAll(w, d.(ssa.Instruction), idMap, justInserted, 2) {
+				good = true
 			}
 			// (b) taken from GetLeaves()
 			for _, o := range origins(x) {
@@ -586,18 +606,63 @@ func runC10(w *World, r *Report) {
 
 	// closure facts
 	r.rule("who-may-call", "AddVertexByID only from the four admission functions; addLeafMemorized only from AddLeaf and runLeafSubscriber; buffer.insert only from addLeafMemorized", 3)
-	callersOf := func(callee string) []string {
+	// callers are resolved to the entry functions they are reached from: an unexported helper that is only
+	// called (never used as a value) counts as its own callers, so extracting part of an admission function
+	// into a helper does not add a caller
+	ownerOf := func(fn *ssa.Function) *ssa.Function {
+		for fn.Parent() != nil {
+			fn = fn.Parent()
+		}
+		return fn
+	}
+	usedAsValue := func(target *ssa.Function) bool {
+		used := false
+		for _, fn := range w.RepoFuncs("accountant") {
+			instrsOf(fn, func(in ssa.Instruction) {
+				for _, op := range in.Operands(nil) {
+					if *op == ssa.Value(target) {
+						if c, ok := in.(ssa.CallInstruction); ok && c.Common().Value == ssa.Value(target) {
+							continue
+						}
+						used = true
+					}
+				}
+			})
+		}
+		return used
+	}
+	var callersOfWant func(match func(ssa.CallInstruction) bool, want map[string]bool, depth int) []string
+	callersOfWant = func(match func(ssa.CallInstruction) bool, want map[string]bool, depth int) []string {
 		var out []string
 		for _, fn := range w.RepoFuncs("accountant") {
-			if len(callsTo(fn, callee)) > 0 {
-				top := fn
-				for top.Parent() != nil {
-					top = top.Parent()
+			n := 0
+			instrsOf(fn, func(in ssa.Instruction) {
+				if c, ok := in.(ssa.CallInstruction); ok && match(c) {
+					n++
 				}
+			})
+			if n == 0 {
+				continue
+			}
+			top := ownerOf(fn)
+			if want[top.Name()] || depth >= 3 || top.Object() == nil || top.Object().Exported() || usedAsValue(top) {
+				out = append(out, top.Name())
+				continue
+			}
+			up := callersOfWant(func(c ssa.CallInstruction) bool { return c.Common().StaticCallee() == top }, want, depth+1)
+			if len(up) == 0 {
 				out = append(out, top.Name())
 			}
+			out = append(out, up...)
 		}
 		return uniqStrings(out)
+	}
+	callersOf := func(callee string, want []string) []string {
+		wm := map[string]bool{}
+		for _, x := range want {
+			wm[x] = true
+		}
+		return callersOfWant(func(c ssa.CallInstruction) bool { return calleeName(c) == callee }, wm, 0)
 	}
 	for _, row := range []struct {
 		callee string
@@ -608,7 +673,7 @@ func runC10(w *World, r *Report) {
 		{cn("accountant", "*buffer", "insert"), []string{"addLeafMemorized"}},
 		{dagM("AddVertex"), nil},
 	} {
-		got := callersOf(row.callee)
+		got := callersOf(row.callee, row.want)
 		r.check(strings.Join(got, ",") == strings.Join(row.want, ","), "who-may-call", row.callee[strings.LastIndex(row.callee, ".")+1:], "-",
 			"callers are exactly "+strings.Join(row.want, ","), "callers are "+strings.Join(got, ","))
 	}
@@ -712,74 +777,74 @@ func runC13(w *World, r *Report) {
 		}
 		nG++
 		mutations, noInsert, wrongRet := 0, 0, 0
+		mName := fn.Params[2].Name()
+		isPark := func(in ssa.Instruction, fr *frame) bool {
+			c, ok := in.(ssa.CallInstruction)
+			if !ok || calleeName(c) != cn("accountant", "*buffer", "insert") {
+				return false
+			}
+			_, ia := callArgs(c)
+			return fr.cx.res(ia[0]) == mName
+		}
+		type parkSite struct {
+			c  ssa.CallInstruction
+			fr *frame
+		}
+		var parks []parkSite
 		for _, fe := range failErrNonNil(g) {
-			// every path: insert(m) before return; returns are the two sentinels; no DAG/index mutation
-			walkFrom(nil, fe.To(), nil, func(in ssa.Instruction) bool {
+			// every path (followed into helpers): insert(m) before the function returns; returns are the two
+			// sentinels; no DAG/index mutation
+			dw := newDeepWalk(func(in ssa.Instruction, fr *frame) bool {
 				if c, ok := in.(ssa.CallInstruction); ok {
 					switch calleeName(c) {
 					case nAddVertexByID, nAddEdge, nDeleteVertex, nSaveTrx, nRemoveTrx:
 						mutations++
 					}
 				}
-				return false
-			})
-			var ins []ssa.CallInstruction
-			for _, c := range f.calls(cn("accountant", "*buffer", "insert")) {
-				_, ia := callArgs(c)
-				if pathOf(ia[0]) == fn.Params[2].Name() {
-					ins = append(ins, c)
+				if isPark(in, fr) {
+					parks = append(parks, parkSite{in.(ssa.CallInstruction), fr})
 				}
-			}
-			walkFrom(nil, fe.To(), nil, func(in ssa.Instruction) bool {
-				for _, c := range ins {
-					if in == c.(ssa.Instruction) {
-						return true
-					}
-				}
-				if _, ok := in.(*ssa.Return); ok {
-					noInsert++
-					return true
-				}
-				return false
-			})
-			walkFrom(nil, fe.To(), nil, func(in ssa.Instruction) bool {
-				if ret, ok := in.(*ssa.Return); ok {
-					d := describeExit(ret)
+				if ret, ok := in.(*ssa.Return); ok && fr.top() {
+					d := describeExitDeep(ret, fr)
 					if d != "return ErrParentDoesNotExists" && d != "return ErrLeafRejected" {
 						wrongRet++
 					}
-					return true
 				}
 				return false
 			})
-			// parked successfully → the caller must be told the parent is missing
-			for _, c := range ins {
-				for _, ise := range passErrNil(c) {
-					walkFrom(nil, ise.To(), nil, func(in ssa.Instruction) bool {
-						if ret, ok := in.(*ssa.Return); ok {
-							if describeExit(ret) != "return ErrParentDoesNotExists" {
+			dw.run(topFrame(fn), fe.To(), 0)
+			dw = newDeepWalk(func(in ssa.Instruction, fr *frame) bool {
+				if isPark(in, fr) {
+					return true
+				}
+				if _, ok := in.(*ssa.Return); ok && fr.top() {
+					noInsert++
+				}
+				return false
+			})
+			dw.run(topFrame(fn), fe.To(), 0)
+		}
+		// parked successfully → the caller must be told the parent is missing; ErrLeafRejected only when the buffer refused
+		for _, pk := range parks {
+			for _, side := range []struct {
+				edges []Edge
+				want  string
+			}{{passErrNil(pk.c), "return ErrParentDoesNotExists"}, {failErrNonNil(pk.c), "return ErrLeafRejected"}} {
+				for _, e := range side.edges {
+					dw := newDeepWalk(func(in ssa.Instruction, fr *frame) bool {
+						if ret, ok := in.(*ssa.Return); ok && fr.top() {
+							if describeExitDeep(ret, fr) != side.want {
 								wrongRet++
 							}
-							return true
 						}
 						return false
 					})
+					dw.run(pk.fr, e.To(), 0)
 				}
 			}
-			// ErrLeafRejected only when the buffer refused
-			for _, c := range ins {
-				for _, ife := range failErrNonNil(c) {
-					walkFrom(nil, ife.To(), nil, func(in ssa.Instruction) bool {
-						if ret, ok := in.(*ssa.Return); ok {
-							if describeExit(ret) != "return ErrLeafRejected" {
-								wrongRet++
-							}
-							return true
-						}
-						return false
-					})
-				}
-			}
+		}
+		if len(parks) == 0 {
+			noInsert++
 		}
 		r.check(len(failErrNonNil(g)) > 0 && noInsert == 0, "park-on-missing-parent", "addLeafMemorized/insert", lineOf(w, g), "every path from the not-found edge parks the vertex (insert(m)) before returning", fmt.Sprintf("%d returns reachable without insert", noInsert))
 		r.check(mutations == 0, "park-on-missing-parent", "addLeafMemorized/no-mutation", lineOf(w, g), "the not-found branch touches neither DAG nor index", fmt.Sprintf("%d mutating calls reachable", mutations))
@@ -855,26 +920,26 @@ func runC13(w *World, r *Report) {
 			if gf == nil {
 				continue
 			}
-			var isE []Edge
-			for _, c := range callsTo(gf.fn, "errors.Is") {
-				if describeErrVal(c.Common().Args[1]) == "ErrParentDoesNotExists" {
-					isE = append(isE, passBool(c, 0, true)...)
+			sentinel := func(fn2 *ssa.Function, _ resolver) []Edge {
+				var es []Edge
+				for _, c := range callsTo(fn2, "errors.Is") {
+					if describeErrVal(c.Common().Args[1]) == "ErrParentDoesNotExists" {
+						es = append(es, passBool(c, 0, true)...)
+					}
 				}
+				return es
 			}
 			var parents []string
 			okGo := false
-			for _, fnn := range WithAnon(gf.fn) {
-				instrsOf(fnn, func(in ssa.Instruction) {
-					g, isGo := in.(*ssa.Go)
-					if !isGo || !strings.HasSuffix(calleeName(g), ").processLackingParent") {
-						return
-					}
-					okGo = behind(g, isE)
-					_, a := callArgs(g)
-					for _, o := range origins(a[1]) {
-						parents = append(parents, pathOf(o))
-					}
-				})
+			for _, d := range deepCalls(gf.fn, func(c ssa.CallInstruction) bool {
+				_, isGo := c.(*ssa.Go)
+				return isGo && strings.HasSuffix(calleeName(c), ").processLackingParent")
+			}, deepDepth) {
+				okGo = behindDeepSite(d, sentinel)
+				_, a := callArgs(d.c)
+				for _, o := range origins(a[1]) {
+					parents = append(parents, pathOf(o))
+				}
 			}
 			parents = uniqStrings(parents)
 			hasL, hasR := false, false
